@@ -42,6 +42,9 @@ func main() {
 				fmt.Println(out)
 			}
 		}
+		if len(os.Args) > 2 && os.Args[2] == "C02" {
+			fmt.Println(runRangeOps(w).out)
+		}
 		if len(os.Args) > 2 && os.Args[2] == "C07" {
 			fmt.Println(runSortHarness(w).out)
 		}
